@@ -39,6 +39,9 @@ func init() {
 			{ID: "C02.g", Title: "LEAF-FROM-CHAIN", Template: "T7+T6", MinInst: 5,
 				Rule: "the entry that is sequenced and signed is built from the validated chain: issuer key hash from chain[2] iff a precertificate signing certificate is present, TBS defanged with it, certificate/precertificate/issuers from the chain (as C09.d, C09.e)",
 				Run:  func(c *Ctx) { c09d(c); c09e(c) }},
+			{ID: "C02.i", Title: "UPLOAD-OUTCOME", Template: "T6", MinInst: 1,
+				Rule: "(= the outcome half of C04.l) the S3 backend reports an upload as successful only when one of its PutObject requests returned a nil error: the checkpoint upload's success edge, on which the acknowledgement rests, means the object was stored",
+				Run:  c04lOutcome},
 			{ID: "C02.f", Title: "SCT-FROM-SEQUENCED", Template: "T2+T6", MinInst: 5,
 				Rule: "in addChainOrPreChain the success return is guarded by the wait function's nil error; Timestamp, leaf-index extension and signed message derive from the one returned entry; ID is the log's ID and the key the log's key",
 				Run:  c02f},
